@@ -40,7 +40,12 @@ def explore(ctx):
             f'map (fun ng => (fst ng, map (fun e => (e_pass e, e_arg e)) (filter (fun e => negb ({ROW_OK} e)) (group_rows (snd ng))))) Gen.PassGroups.shipped_groups',
             'nodup_str (map (fun r => fst (fst r)) Gen.ClangDelta.registrations)',
             '(Gen.ClangDelta.cxx_exit_generic, Gen.ClangDelta.cxx_exit_invalid_counter, Gen.PyConv.py_clang_stop, Gen.PyConv.py_clangbin_stop, Gen.PyConv.py_clex_codes, Gen.ClangDelta.clex_ok, Gen.ClangDelta.clex_stop)',
-            '(Gen.PyConv.py_count_regex_prefix, Gen.ClangDelta.cxx_count_msg, Gen.PyConv.py_count_stderr_prefix)'])
+            '(Gen.PyConv.py_count_regex_prefix, Gen.ClangDelta.cxx_count_msg, Gen.PyConv.py_count_stderr_prefix)',
+            'Gen.ClangDelta.conditional_registrations'])
+        for name in re.findall(r'"([^"]+)"', res[4]):
+            used = sorted({f for f, _c, e in rows if e.get('arg') == name})
+            ctx.violation(f'conditional-registration:{name}', f'clang_delta transformation {name!r} is registered inside a preprocessor conditional: some builds do not have it'
+                          + (f' although {", ".join(used)} schedule it' if used else ''), {'transformation': name})
         bad = re.findall(r'\(Some "([^"]*)", (Some "([^"]*)"|None)\)', res[0])
         for p, _, a in bad:
             ctx.violation(f'row:{p}:{a}', f'shipped entry pass={p!r} arg={a!r} names something that does not exist (unknown pass, argument not accepted, transformation not registered / not multi-rewrite, or clex mode out of range)',
